@@ -24,4 +24,16 @@ META = {
         "note": "Trusted: as C03. Reads/writes are those recorded through record_read/record_write.",
         "technique": "Lean 4 proof (invariant: SSI validation + retention) + differential correspondence",
     },
+    "C13": {
+        "text": "Machine-checked Lean 4 theorems for ALL sequences of insert/remove/clear, with and without the object index, and all eight pattern shapes: the store model is a set (membership characterised by the last relevant operation), every lookup equals filtering the set, each match is returned once, the per-component accessors and the index key sets agree with the set, and a transaction's pending view equals the post-commit view while staying invisible to others. Tied to RdfStore by running both on generated sequences and comparing every return value as sorted multisets.",
+        "design_ref": "DESIGN.md 7 C13",
+        "note": "Trusted: Lean kernel + 3 standard axioms; harness; hash containers as modelled. SPARQL front end (parser, translator, planner_rdf) is not modelled and not yet streamed: the claim is for the store-level half of the property.",
+        "technique": "Lean 4 proof (index invariant by induction over operations, refinement to a set) + differential correspondence with the real RdfStore",
+    },
+    "C06": {
+        "text": "Machine-checked Lean 4 theorems about the log format and replay rule, for EVERY record list, payload, checksum function and EVERY truncation length: a log cut at any byte yields exactly the records whose frames were completely written (a torn frame is never returned; everything before the cut survives), an in-place corrupted frame stops replay before it, the commit rule is prefix-monotone and drops uncommitted tails. Tied to WalManager/WalRecovery by writing real logs, truncating them at every byte length, flipping bits, appending after a crash, and comparing recovered records with the model byte for byte.",
+        "design_ref": "DESIGN.md 7 C06",
+        "note": "Trusted: Lean kernel + standard axioms (+ the bv_decide axiom inherited from the shared codec lemma file); the CRC hypothesis; the file-system crash model. Known finding: records appended after a torn tail are never recovered. Rotation/checkpoint-metadata crash points and GrafeoDB-level scenarios are not yet streamed.",
+        "technique": "Lean 4 proof (induction over the record list for every cut point) + fault-enumerating correspondence with the real WAL",
+    },
 }
